@@ -188,6 +188,8 @@ def faulty_child(world, event, fail_from_rel=None, reject=None):
 
 
 def explore_c02(world, event, acc, label, max_children=40):
+    if os.environ.get('VERIF_TIER_HINT') == 'quick':
+        max_children = 26
     """reference + every crash boundary + every rejected ref of one job."""
     ref = reference_child(world, event)
     if 'inconclusive' in ref:
